@@ -382,7 +382,53 @@ def targets(ctx):
         finally:
             c.cleanup()
 
+    # ---- fixed matrix: every pooled field name x every label, and packages under google.* that are not google.protobuf
+    from ..schema import FIELD_NAMES
+
+    MATRIX_NAMES = sorted({n for pool in FIELD_NAMES.values() for n in pool} | {"sha256sum", "ipv4address", "x2y", "none", "HTTPStatusCode", "iD", "URL2go", "entry", "Entry", "key", "value"})
+
+    def matrix_files(label):
+        body = []
+        for i, n in enumerate(MATRIX_NAMES):
+            decl = {"single": f"int64 {n} = 1;", "repeated": f"repeated sint32 {n} = 1;", "optional": f"optional string {n} = 1;",
+                    "map": f"map<string, int32> {n} = 1;", "map_msg": f"map<int32, V> {n} = 1;",
+                    "oneof": f"oneof grp {{ int32 {n} = 1; string other_member = 2; }}", "message": f"V {n} = 1;",
+                    "repeated_msg": f"repeated V {n} = 1;"}[label]
+            body.append(f"message N{i} {{ {decl} bool tail = 2000; }}")
+        return {"names.proto": 'syntax = "proto3";\npackage names;\nmessage V { int32 v = 1; }\n' + "\n".join(body) + "\n"}
+
+    GOOGLE_PKGS = {
+        "google/type/money.proto": 'syntax = "proto3";\npackage google.type;\nmessage Money { string currency_code = 1; int64 units = 2; int32 nanos = 3; }\nenum Day { DAY_UNSPECIFIED = 0; MONDAY = 1; }\n',
+        "google/rpc/status.proto": 'syntax = "proto3";\npackage google.rpc;\nimport "google/protobuf/duration.proto";\nmessage Status { int32 code = 1; string message = 2; google.protobuf.Duration retry = 3; }\n',
+        "googlex/thing.proto": 'syntax = "proto3";\npackage googlex;\nmessage Thing { int32 a = 1; }\n',
+        "shop.proto": 'syntax = "proto3";\npackage shop;\nimport "google/type/money.proto";\nimport "google/rpc/status.proto";\nimport "googlex/thing.proto";\nmessage Order { google.type.Money price = 1; google.rpc.Status status = 2; repeated google.type.Day days = 3; googlex.Thing thing = 4; }\n',
+    }
+    LABELS = ["single", "repeated", "optional", "map", "map_msg", "oneof", "message", "repeated_msg"]
+
+    def matrix_cases():
+        for lab in LABELS:
+            yield {"matrix": lab}
+        yield {"matrix": "google_packages"}
+
+    def matrix_ev(case):
+        files = GOOGLE_PKGS if case["matrix"] == "google_packages" else matrix_files(case["matrix"])
+        c = gen.compile_files(files, tag="c03m_")
+        try:
+            found = validate_by_name(c)
+            fails = []
+            for cl, where, d in found:
+                # name the field name(s) concerned: the message N<i> is in the detail
+                mm = re.search(r"names\.N(\d+)", d)
+                nm = MATRIX_NAMES[int(mm.group(1))] if mm else "-"
+                fails.append(Failure(cl, f"matrix|{case['matrix']}|{cl}|{where}|name:{nm}", d))
+            n = len(GOOGLE_PKGS) if case["matrix"] == "google_packages" else len(MATRIX_NAMES)
+            return Eval(fails, weight=n, nontrivial_count=n, labels=[f"matrix:{case['matrix']}"])
+        finally:
+            c.cleanup()
+
     return [
+        Target("name_label_matrix", matrix_ev, cases=matrix_cases, exhaustive=True,
+               rule="every pooled field name (keywords, builtins, upper-case runs, digits, underscores) x {single, repeated, optional, map, map of messages, oneof, message, repeated message}; packages google.type / google.rpc / googlex next to google.protobuf"),
         Target("known_finding_probes", probe_ev, cases=probe_cases, exhaustive=True, shard_cases=False),
         Target("bundled_descriptors", bundled_ev, cases=bundled_cases, exhaustive=True, shard_cases=False,
                rule="every field / enum value the bundled classes share by name with descriptor.proto, plugin.proto and the well-known-type protos"),
